@@ -12,6 +12,15 @@ CLAIMS = {
  "C12": dict(level="proof", ref="DESIGN.md 5 C12",
    text="Coq theorem rt_inv_reachable: after ANY sequence of add/remove/re-key the table never contains its own id, ids are pairwise distinct, every entry is in the bucket of its distance, buckets hold <= 20, iterator = BTreeMap order, size/is_empty agree, per IP at most one insecure entry and no two entries with the same 21-bit prefix; plus add_evicts_only_stale_head / add_never_evicts_fresh. Model tied to the code by lock-step correspondence over op sequences with the virtual clock stepping across the 15-minute boundary by +-1 ms (full dumps after every step), and the invariant + eviction rule evaluated in Coq on the implementation's own dumps.",
    note="Trusted: Coq kernel; hand model of routing_table.rs/node.rs validated by the correspondence run; virtual clock by interposing clock_gettime in the harness executable. 'head = least recently seen' is proved only as 'the evicted entry is the head of the full bucket and stale'."),
+ "C03": dict(level="proof", ref="DESIGN.md 5 C03",
+   text="Coq theorems over the Gallina model of Server::handle_request, parametric in the Ed25519 verification function: a vetoed request changes nothing; every write is either answered 203/205/206/207/301/302 with the contents of all four stores unchanged, or acknowledged - and then the token validated for the sender's IP under the live secrets and the payload was valid per kind (hash, sizes, SHA1(k||salt) target, signature, sender IP + explicit/implied port, +-45 s) and is stored; non-writes never change store contents; along every history everything stored (hence everything a get serves) is valid. Model tied to the code by lock-step correspondence over request histories with full store/secret dumps after every request, and the rule table re-evaluated in Coq on the implementation's own dumps.",
+   note="Trusted: Coq kernel; hand model of server.rs/peers.rs/signed_peers.rs/tokens.rs/mutable.rs/immutable.rs/signed_announce.rs incl. SHA-1 and CRC-32C in Gallina, lru::LruCache as an MRU list, the f32 sampling chance as exact rational rounding; Ed25519 is a parameter (dalek's verdict is an oracle in the correspondence); store dumps through cfg-guarded accessors."),
+ "C04": dict(level="proof", ref="DESIGN.md 5 C04",
+   text="Coq theorems: for every step of every history the stored seq of a target never decreases; the complete rule table of a token-bearing mutable put (205/207, cas mismatch 301 first, lower seq 302, both leaving the item in place, else accepted iff key/target/signature are right, else 206); a get returns exactly the stored item / only its seq when the filter is at or above it / no value; an item disappears only when an acknowledged write hits a full store. Correspondence as C03, with histories concentrated on seq/cas relations and capacity-1..3 stores.",
+   note="As C03. Equal seq with a different value is accepted by the code; the property is silent and the theorem records it."),
+ "C15": dict(level="proof", ref="DESIGN.md 5 C15",
+   text="Coq theorems: CRC32C(ip || secret) is injective in the IPv4 address (explicit left inverse of the register update; bytewise feeding = xor of the little-endian word then 32 steps), so a token issued to ip1 validates for ip2 only by colliding with ip2's token under the other live secret; tokens of any length other than 4 are rejected; every write kind with a non-validating token gets 203; a token validates on every timeline of requests up to 5 minutes after issue; two rotations are more than 5 minutes apart and after two rotations the issuing secret is gone. Correspondence: model and node compute the same 4 token bytes from the seeded secrets; the rotation discipline is checked on the implementation's dumped secrets at every request across idle gaps and +-1 ms around 5:00.",
+   note="As C03. Expiry '10 min + request gap' is stated as: gone after two rotations, rotations happen at the first handled request more than 5 min after the previous one (checked on the implementation per request); the 2^-32 collision event is an explicit disjunct."),
 }
 
 TECH = "Coq proof over hand-written Gallina model + differential correspondence (vm_compute) against the Rust implementation"
